@@ -196,7 +196,9 @@ def failing_edits(sim, rng):
                 setq(n, "data_stored", -(abs(cur[1]) + 1.0) * 1e7 * f, cur[2], "update_full_cumulative_storage_need")
             if cls == "Job":
                 setq(n, "request_duration", 0.0, "s", "update_hourly_data_transferred_per_usage_pattern")
-        elif cls == "UsagePattern":
+        elif cls == "UsagePattern" and not isinstance(obj.nb_usage_journeys_in_parallel, EmptyExplainableObject):
+            # (with no journey in parallel an empty device list does not raise: 0 * "no value" aliases objects,
+            # a degenerate configuration outside the envelope)
             out.append({"op": "set", "obj": n, "attr": "devices", "value": ["refs", []], "fault": "F2",
                         "expect_site": "update_devices_energy"})
     return out
